@@ -63,6 +63,30 @@ def generator(repo):
             for nm in ast.walk(t):
                 if isinstance(nm, ast.Name) and nm.id in tracked:
                     raise Refuse(f'power_spectrum: statement not understood: {ast.unparse(st)[:80]}')
+    # ---- the tail: `opd *= mask` ; `opd = opd * np.sqrt(np.count_nonzero(opd)/np.sum(np.abs(opd)**2)) * rms`
+    def tail_expr(e, var):
+        src = ast.unparse(e)
+        if isinstance(e, ast.Name):
+            if e.id == var: return 'x'
+            if e.id == 'rms': return 'rms'
+            raise Refuse(f'power_spectrum tail: name {e.id}')
+        if isinstance(e, ast.Call):
+            f_ = ast.unparse(e.func)
+            if f_ in ('np.sqrt', 'numpy.sqrt') and len(e.args) == 1: return f'(sqrt {tail_expr(e.args[0], var)})'
+            if f_ in ('np.count_nonzero', 'numpy.count_nonzero') and len(e.args) == 1 and ast.unparse(e.args[0]) in (var, 'mask'): return 'count'     # equal for a binary mask and non-zero noise (power_spectrum_rms_over_mask)
+            if f_ in ('np.sum', 'numpy.sum') and len(e.args) == 1 and ast.unparse(e.args[0]).replace(' ', '') in (f'np.abs({var})**2', f'{var}**2', f'{var}*{var}'): return 'sumsq'
+            raise Refuse(f'power_spectrum tail: call {src}')
+        if isinstance(e, ast.BinOp) and isinstance(e.op, ast.Mult): return f'({tail_expr(e.left, var)} * {tail_expr(e.right, var)})'
+        if isinstance(e, ast.BinOp) and isinstance(e.op, ast.Div): return f'(div {tail_expr(e.left, var)} {tail_expr(e.right, var)})'
+        raise Refuse(f'power_spectrum tail: {src}')
+    mask_step, norm_step, out_var = None, None, None
+    for st in fn[0].body:
+        if isinstance(st, ast.AugAssign) and isinstance(st.op, ast.Mult) and ast.unparse(st.value) == 'mask' and isinstance(st.target, ast.Name):
+            mask_step = st.target.id; recognised.add(id(st))
+        elif mask_step and isinstance(st, ast.Assign) and ast.unparse(st.targets[0]) == mask_step and 'count_nonzero' in ast.unparse(st.value):
+            norm_step = tail_expr(st.value, mask_step)
+        elif isinstance(st, ast.Return): out_var = ast.unparse(st.value)
+    if mask_step is None or norm_step is None or out_var != mask_step: raise Refuse('power_spectrum: mask / normalisation / return not found')
     names = sorted(idx, key=lambda k: idx[k])     # variable along i first
     out = []
     out.append(f'/-- shape of `np.mgrid[...]` (frequency grid, PSD, filter H) for a mask of shape (rows, cols) -/\ndef psGridShape (rows cols : Int) : Int × Int := ({grid[0]}, {grid[1]})\n')
@@ -72,7 +96,10 @@ def generator(repo):
         lean = 'psFreqRow' if ix == 'i' else 'psFreqCol'
         out.append(f'/-- `{nm}` at grid index (i, j): numerator and denominator of the frequency in cycles per pixel -/\n'
                    f'def {lean} (rows cols i j : Int) : Int × Int := ({ix} - ({A} / 2 + 1), {B})\n')
-    return '\n'.join(out), [f'grid {grid}, noise {noise}, axes {axes}']
+    out.append('/-- `opd *= mask` -/\ndef psMaskStep {K : Type} [Mul K] (x mask : K) : K := x * mask\n')
+    out.append('/-- the final rescale, translated: `x` the masked sample, `count = count_nonzero(opd)`, `sumsq = sum(|opd|^2)` over the masked map -/\n'
+               f'def psNormalise {{K : Type}} [Mul K] (sqrt : K → K) (div : K → K → K) (x count sumsq rms : K) : K := {norm_step}\n')
+    return '\n'.join(out), [f'grid {grid}, noise {noise}, axes {axes}, tail {norm_step}']
 
 MODULES = [{'name': 'PowerSpectrum', 'src': 'lentil/wfe.py', 'generator': generator, 'props': ['C18']}]
 
